@@ -29,7 +29,7 @@ ASSUMPTIONS = ['closed form judged for nli method gn_model_analytic only (as the
                'both channels; gamma(f)/gamma(f_ref) is taken from the fibre accessor, gamma(f_ref) from the user '
                'parameters', 'agreement 1e-9 relative per channel']
 REQUIRED_COUNTERS = {'compute_nli_calls_compared': 30, 'cube_law_checks': 30, 'order_checks': 30,
-                     'monotonic_checks': 30, 'snr_nli_after_fiber_checks': 30}
+                     'monotonic_checks': 30, 'snr_nli_after_fiber_checks': 30, 'recrossings_after_length_change': 20}
 CASE_TIMEOUT = {'quick': 120, 'thorough': 300}
 
 _REC = attach.CallRecorder()
@@ -187,6 +187,33 @@ def run_case(case, ctx):
             ctx.violation('closed-form', f'NLI differs from the GN closed form: rel dev {d:.3e} '
                           f'(channel {k}: got {got[k] if got.shape == (n,) else got}, reference {ref[k]})',
                           {'fibre': fparams, 'carriers': carriers[:8], 'n': n, 'got': got[:8], 'ref': ref[:8]})
+        # (1b) history: the same Fiber object crossed again by the same comb after its length was changed through the
+        # public setter (what auto-design itself does when it splits a fibre): the NLI must be that of the fibre as it
+        # is now, not of the fibre as it was
+        if rng.random() < 0.35 and d <= 1e-9:
+            new_len = fdef.length * G.pick(rng, [0.125, 0.25, 0.5, 2.0, 3.0])
+            fiber.params.length = new_len
+            fdef2 = gn.FibreDef(**dict(fdefkw, length_m=new_len))
+            _REC.clear()
+            _REC.start()
+            try:
+                fiber(make_si(carriers, order=order))
+            finally:
+                _REC.stop()
+            recs2 = [r for r in _REC.records if r['name'] == 'compute_nli' and r['done']]
+            ctx.count('recrossings_after_length_change')
+            if len(recs2) == 1:
+                r2 = recs2[0]
+                ref2 = gn.gn_nli(fdef2, r2['args']['frequency'].tolist(), r2['args']['baud_rate'].tolist(),
+                                 r2['args']['pch'].tolist(), gamma_ratio=[gamma_ratio[freqs.index(f)]
+                                                                         for f in r2['args']['frequency'].tolist()])
+                d2 = rel_dev(np.asarray(r2['ret'], dtype=float), ref2)
+                if d2 > 1e-9:
+                    ctx.violation('closed-form-after-length-change', f'fibre object re-used after its length was set from '
+                                  f'{fdef.length:.1f} m to {new_len:.1f} m: NLI differs from the closed form of the new '
+                                  f'length (rel dev {d2:.3e}; vs the old length {rel_dev(np.asarray(r2["ret"], dtype=float), ref):.3e})',
+                                  {'fibre': fparams, 'new_length_m': new_len})
+            fiber.params.length = fdef.length
         # launch power entering the fibre = launched / (con_in + att_in)
         att = 10 ** (-(fparams['con_in'] + fparams['att_in']) / 10)
         p_exp = np.sort(np.array(freqs)), None
